@@ -474,6 +474,16 @@ static RunResult run_history(const std::vector<int>& h, int align_mode, bool rep
       { std::vector<SU_vector> probe; std::set<const double*> held; for (int i = 0; i < NS; i++) { Obs ob = observe(w, i); if (ob.cls == C_ARENA) held.insert(ob.ptr); }
         for (int d : DIMS) for (int q = 0; q < 4; q++) { probe.emplace_back((unsigned)d); if (held.count(&probe.back()[0])) fail(c, "bad_alloc:block-both-cached-and-owned", opname(o) + fmt(" k=%ld", fail_k)); } }
       if (c.failed) break;
+      // the operation that failed is attempted again with memory available: whatever scratch state the failed attempt left
+      // behind (thread-local work space of the library included) must not make the retry fail, crash or corrupt the heap
+      if (!c.failed && enabled(m, o)) {
+        Expect e2; bool threw2 = false; std::string what2;
+        execute(w, m, o, e2, threw2, what2);
+        if (threw2 && what2 == "std::bad_alloc") fail(c, "bad_alloc:retry-with-memory-available-fails", opname(o) + fmt(" k=%ld", fail_k));
+        else if (A.errors()) fail(c, "ledger:" + A.first_error.substr(0, 60), "retrying " + opname(o) + " after bad_alloc");
+        else if (!w.guards_ok()) fail(c, "user-buffer:guard-zone-overwritten", "retrying " + opname(o) + " after bad_alloc");
+        else for (int i = 0; i < NS; i++) if (observe(w, i).cls == C_BAD) { fail(c, "storage:slot-points-to-dead-or-foreign-memory", "retrying " + opname(o) + " after bad_alloc"); break; }
+      }
       for (int i = 0; i < NS && !c.failed; i++) {
         try { if (m.s[i].kind == M_VIEW) { for (int k = 0; k < m.s[i].dim * m.s[i].dim; k++) w.v(i)[k] = 3.5; } else { SU_vector nv((unsigned)DIMS[0]); nv[0] = 42; w.v(i) = nv; if (!(w.v(i).Dim() == (unsigned)DIMS[0] && w.v(i)[0] == 42)) fail(c, "bad_alloc:vector-not-reassignable", opname(o) + fmt(" slot %d", i)); } }
         catch (const std::exception& ex) { fail(c, "bad_alloc:vector-not-reassignable", opname(o) + fmt(" slot %d threw ", i) + ex.what()); }
